@@ -471,7 +471,7 @@ def r6_6(ctx):
     ctx.floor("R6.6", len(ranges), 1, "range() expansions in sequence_set_to_list")
     args = {a.arg for a in fi.node.args.args}
     ctx.require({"seq_max", "uid_cmd"} <= args, "sequence_set_to_list lost its seq_max/uid_cmd parameters")
-    for rc in ranges:
+    for k_site, rc in enumerate(sorted(ranges, key=lambda c: (c.lineno, c.col_offset)), 1):
         # the size of range(a, b) is bounded when its *stop* argument is (the start is >= 0 by the < 1 guards / parser)
         stop = rc.args[1] if len(rc.args) >= 2 else rc.args[0]
         vars_ = sorted(names_in(stop) - {"range"})
@@ -486,7 +486,7 @@ def r6_6(ctx):
             unbounded.append(v)
         if unbounded:
             ctx.bad(
-                "R6.6", fi.module, fi.qual, norm(rc),
+                "R6.6", fi.module, fi.qual, f"range expansion #{k_site} of a client-supplied pair",
                 f"range expansion bounded only when uid_cmd is false: for UID commands {', '.join(unbounded)} come "
                 "straight from the client (e.g. `UID FETCH 1:4000000000`) and a list of that size is built "
                 "synchronously inside the management task",
@@ -571,7 +571,7 @@ def r6_7(ctx):
         }
         for what, must in (("event.set()", rel), ("removal from activating_mailboxes", dele)):
             ctx.require(must, f"get_mailbox: {what} not found")
-            flags = {"creating"} & {x.id for x in ast.walk(fi.node) if isinstance(x, ast.Name)}
+            flags = {s_.targets[0].id for s_ in body_walk(fi.node) if isinstance(s_, ast.Assign) and len(s_.targets) == 1 and isinstance(s_.targets[0], ast.Name) and isinstance(s_.value, ast.Constant) and isinstance(s_.value.value, bool)}
             hit = flow.feasible_paths_exist(
                 g, nid, {g.exit, g.raise_exit}, flow.name_classify(flags), labels=flow.ALL,
                 avoid=lambda n: n in must, gens=flow.const_bool_gens(g), kills=flow.name_kills(g, flags),
